@@ -47,7 +47,7 @@ def cases(rng, tier, worker, nworkers):
     if worker == 0:
         for f in sorted(glob.glob(os.path.join(os.path.dirname(__file__), '..', '..', 'corpus', 'dispatch', '*.json'))):
             yield dict(json.load(open(f))['case'], prop=PROP)
-    n = 1200 if tier == 'quick' else 30000 // nworkers
+    n = 1200 if tier == 'quick' else 240000 // nworkers
     for i in range(n):
         yield D.gen_case(rng, PROP, faults=FAULTS or (i % 5 == 0), size=8 if i % 3 else 14)
 
